@@ -17,7 +17,35 @@ def mk(width, base, api=0, lo=None, hi=None, timeout=300, solver=None, tag="", m
         b["values"] = "magnitude in [%d, %d], negative and non-negative, signed and unsigned" % (lo, hi)
     flags = ["--paths", "fifo"] if paths else []
     return Case(name, H, ["utils.c"], defs=defs, unwind=75, timeout=timeout, solver=solver, bounds=b,
-                functions=FUNCS, models=False, flags=flags)
+                functions=FUNCS, models=False, flags=flags, optional_witness=(["negative"] if "-win" in tag else []))
+
+
+def tables(width, base):
+    umax = (1 << width) - 1
+    pw, md = [], []
+    j = 0
+    while base ** j <= umax:
+        pw.append(base ** j)
+        md.append(min(base - 1, umax // (base ** j)))
+        j += 1
+    return pw, md
+
+
+def chain(width, base, api=0, timeout=1800, paths=True, solver=None, lo=None, hi=None, tag=""):
+    """remainder-chain oracle (MODE 4), all values unless a slice is given"""
+    eb = base if base in (2, 8, 16) else 10
+    pw, md = tables(width, eb)
+    sfx = "ULL" if width == 64 else "U"
+    defs = ["-DWIDTH=%d" % width, "-DBASE=%d" % base, "-DAPI=%d" % api, "-DMODE=4",
+            "-DPOW_TABLE={" + ",".join("%d%s" % (v, sfx) for v in pw) + "}", "-DMAXD_TABLE={" + ",".join(str(v) for v in md) + "}"]
+    b = dict(width=width, base=base, api="public wrappers" if api else "U*ToStrBaseSign", values="all 2^%d" % width,
+             checks="canonical form + decode-back in remainder-chain form (full buffer)",
+             engine="path-wise symbolic execution (--paths fifo)" if paths else "monolithic BMC")
+    if hi is not None:
+        defs += ["-DMAG_LO=%dULL" % lo, "-DMAG_HI=%dULL" % hi]
+        b["values"] = "magnitude in [%d, %d]" % (lo, hi)
+    return Case("w%d-b%d-api%d-chain%s" % (width, base, api, tag), H, ["utils.c"], defs=defs, unwind=75, timeout=timeout, solver=solver, bounds=b,
+                functions=FUNCS, models=False, flags=(["--paths", "fifo"] if paths else []))
 
 
 def cases(tier):
@@ -38,6 +66,16 @@ def cases(tier):
         cs.append(mk(64, b, 0, 0, 255, timeout=1800, tag="-small"))
     if not q:
         cs.append(mk(64, 8, 0, timeout=3000))
+    # base 10: every value in small windows around the width / sign boundaries and around powers of ten (where a wrong
+    # type width, sign test or divisor start would show); the windows are decided for all three modes
+    for w in (32, 64):
+        centres = [2 ** 7, 2 ** 8, 2 ** 15, 2 ** 16, 2 ** 31, 2 ** 32 - 1]
+        if w == 64:
+            centres += [2 ** 32 + 1, 2 ** 63, 2 ** 64 - 2]
+        centres += [10 ** k for k in ((4, 9) if w == 32 else (9, 10, 18, 19))]
+        for c in centres:
+            lo, hi = max(0, c - 2), min(2 ** w - 1, c + 2)
+            cs.append(mk(w, 10, 0, lo, hi, timeout=900, tag="-win%d" % c))
     # base 10 and "any other base means 10"
     hi = 9999 if q else 999999
     for w in (32, 64):
@@ -50,7 +88,7 @@ def cases(tier):
 
 META = dict(
     bounds=dict(buffer_len="0..70", bases="2, 8, 16: all values of both widths for canonical form; truncation: all 32-bit "
-                "values, 64-bit full-length and short slices; base 10 and 'other': magnitude slice per case"),
+                "values, 64-bit full-length and short slices; base 10 and 'other': magnitude slice per case plus 5-value windows around 2^7, 2^8, 2^15, 2^16, 2^31, 2^32, 2^63, 2^64 and powers of ten"),
     outside=["base-10 magnitudes above the per-case slice (the digit loop's repeated division defeats every back end "
              "present beyond ~10^6, see DESIGN.md C14)",
              "64-bit truncation relation in bases 2 and 8 for magnitudes above 255 (canonical form is proved for all of them; base 16 truncation is proved for all values)",
